@@ -71,7 +71,8 @@ def manifest(pid, title_text):
                       "are of three kinds (statement error, protocol error = connection discarded on return, connection "
                       "closed under the session); execution timeouts are represented by the third kind, real timers are "
                       "not driven. The real Session.Run loop is driven packet by packet over a fake client socket (no handshake); "
-                      "streaming results (continueConn), savepoints, COM_FIELD_LIST and prepared statements are not "
+                      "streamed results are exercised for unsharded reads (one extra chunk); multi-result streaming, savepoints, "
+                      "COM_FIELD_LIST and prepared statements are not "
                       "exercised. Read-only users in keep-session mode are pinned to a replica by design of "
                       "getBackendKsConn; C18's master clause is not applied to them.",
         "technique": "TLA+ spec + TLC exhaustive check; TLC-generated behaviours replayed on the real session executor with "
@@ -359,7 +360,7 @@ class Family:
             # behaviours one command longer (begin / statement / commit ...), fault-free or with a fault in the command that
             # ends the transaction (COMMIT / ROLLBACK / SET autocommit).  In the fault-free ones the expected state is fully
             # determined by the property texts and every difference is a verdict.
-            nf3 = self.generate(3, END_FOPS, sample=lambda c: 0.4 if any(x["f"]["op"] != "none" for x in c["cmds"]) else 0.2)
+            nf3 = self.generate(3, END_FOPS, sample=lambda c: 0.3 if any(x["f"]["op"] != "none" for x in c["cmds"]) else 0.15)
             ctx.sample(nf3[len(nf3) // 2])
             sims = self.generate(5, ALL_FOPS, sim=80, ns=2)
             ctx.sample(sims[0])
@@ -383,7 +384,7 @@ class Family:
             self.replay(nf4 + sims, "bfs4nofault+sim6", 3500)
             self.validate_clean(10000)
             self.validate_rejected_sample(12)
-        want = ["begin", "commit", "rollback", "setac0", "setac1", "unshard/read", "unshard/write", "unshard/lockread", "shard/read",
+        want = ["begin", "commit", "rollback", "setac0", "setac1", "unshard/read", "unshard/write", "unshard/lockread", "unshard/stream", "shard/read",
                 "shard/write", "ping", "quit", "disconnect", "nschange", "nschange-during-command", "order-dependent"] + \
                ["fault:%s" % f for f in ("get/err", "begin/broken", "setac/broken", "exec/err", "exec/broken", "exec/closed",
                                          "commit/broken", "rollback/broken", "ping/broken", "sync/broken", "init/broken")]
